@@ -66,6 +66,12 @@ theorem C16_sound (c : RawCfg) (h : validate c = true) : Safe c := by
     · right; left; rw [h]; rfl
     · right; right; rw [h]; rfl
 
+/-- **C16 at start-up.** The program starts on a configuration file only if every node group in it passes validation
+    (`cmd/main.go` `setupNodeGroups`; tied to the built program by the `startup` stream, duplicate names and invalid
+    entries in any position included) — so every group it starts with is safe. -/
+theorem C16_startup_sound (cs : List RawCfg) (h : cs.all validate = true) : ∀ c ∈ cs, Safe c :=
+  fun c hc => C16_sound c (List.all_eq_true.mp h c hc)
+
 /-- The translator understood every construct of the validator (none was replaced by `unknown`). -/
 theorem C16_translation_complete : numUnknown = 0 := by decide
 
